@@ -970,8 +970,11 @@ func (ai *AI) inline(cal *ssa.Function, call *ssa.Call, args []*AV, s *aiState) 
 	rets := ai.Run(cal, entry)
 	ai.forks = savedForks
 	// a validator-like callee: keep its outcomes apart (first one continues in place, the others fork)
-	if verdictLike(cal) && len(rets) >= 2 && len(rets) <= 6 {
-		var outs []outcome
+	if verdictLike(cal) && len(rets) >= 2 {
+		// one outcome per return INSTRUCTION (the states that reach it are joined)
+		var order []*ssa.Return
+		var all []outcome
+		byRet := map[*ssa.Return]*outcome{}
 		for _, r := range rets {
 			ret := r.ret
 			var v *AV
@@ -1002,9 +1005,64 @@ func (ai *AI) inline(cal *ssa.Function, call *ssa.Call, args []*AV, s *aiState) 
 					}
 				}
 			}
-			outs = append(outs, o)
+			// keep distinct outcomes of one return apart while they are few (correlated fields of a result struct)
+			all = append(all, o)
+			if prev, ok := byRet[ret]; ok {
+				if j := joinAV(prev.val, o.val); j != nil {
+					prev.val = j
+				}
+				for i, pv := range prev.params {
+					if nv, ok := o.params[i]; ok {
+						if j := joinAV(pv, nv); j != nil {
+							prev.params[i] = j
+							continue
+						}
+					}
+					delete(prev.params, i)
+				}
+				for k, mv := range prev.mem {
+					if nv, ok := o.mem[k]; ok {
+						if j := joinAV(mv, nv); j != nil {
+							prev.mem[k] = j
+							continue
+						}
+					}
+					delete(prev.mem, k)
+				}
+			} else {
+				oc := o
+				byRet[ret] = &oc
+				order = append(order, ret)
+			}
 		}
-		if len(outs) >= 2 {
+		var outs []outcome
+		// distinct states, if few; else one (joined) outcome per return instruction
+		seenOut := map[string]bool{}
+		for _, o := range all {
+			k := o.val.String()
+			for i := 0; i < len(cal.Params); i++ {
+				if pv, ok := o.params[i]; ok {
+					k += "|" + pv.String()
+				}
+			}
+			if !seenOut[k] {
+				seenOut[k] = true
+				outs = append(outs, o)
+			}
+		}
+		if len(outs) > 80 {
+			outs = nil
+			for _, ret := range order {
+				outs = append(outs, *byRet[ret])
+			}
+		}
+		if os.Getenv("MB_DEBUG_AI") != "" {
+			fmt.Fprintf(os.Stderr, "  %s: %d return states, %d distinct, %d return instrs\n", cal.Name(), len(rets), len(seenOut), len(order))
+			for _, o := range outs {
+				fmt.Fprintf(os.Stderr, "  outcome of %s: %s\n", cal.Name(), o.val.String())
+			}
+		}
+		if len(outs) >= 2 && len(outs) <= 80 {
 			ai.applyOutcome(call, outs[0], s)
 			ai.forks = append(ai.forks, outs[1:]...)
 			return outs[0].val
